@@ -516,6 +516,74 @@ func init() {
 			strList("reduceGroupGuards", "reduceFunction: the `if` conditions that mention GroupColCount, in order", cs, fd != nil)
 		}
 
+		// the reduce table's row buffer (seeded change C14-reduce-rowbuf-hoisted): the render callback of the table path
+		// (the first function literal handed to RunAggregationLoop) with its row loop – where `rowBuf` is allocated, what
+		// is written into it, what is handed to WriteRow –, the statements between NewTable and that call that declare
+		// anything (a buffer hoisted out of the loop shows up here), and TableWriter.WriteRow / writeRow (what the table
+		// keeps of a row and when it re-draws)
+		{
+			const red = "cmd/reduce.go"
+			var render *ast.FuncLit
+			var hoisted []string
+			fd := c.Func(red, "reduceFunction")
+			if fd != nil {
+				ast.Inspect(fd, func(n ast.Node) bool {
+					blk, ok := n.(*ast.BlockStmt)
+					if !ok || render != nil {
+						return render == nil
+					}
+					seenTable := false
+					var decls []string
+					for _, st := range blk.List {
+						if as, ok := st.(*ast.AssignStmt); ok && as.Tok == token.DEFINE && len(as.Rhs) == 1 &&
+							strings.HasPrefix(c.Print(as.Rhs[0]), "termrenderers.NewTable") {
+							seenTable = true
+							continue
+						}
+						if !seenTable {
+							continue
+						}
+						if es, ok := st.(*ast.ExprStmt); ok {
+							if ce, ok := es.X.(*ast.CallExpr); ok && strings.HasSuffix(c.Print(ce.Fun), "RunAggregationLoop") && len(ce.Args) == 3 {
+								if fl, ok := ce.Args[2].(*ast.FuncLit); ok {
+									render = fl
+									hoisted = decls
+									return false
+								}
+							}
+						}
+						switch x := st.(type) {
+						case *ast.AssignStmt:
+							if x.Tok == token.DEFINE {
+								decls = append(decls, flat(x))
+							}
+						case *ast.DeclStmt:
+							decls = append(decls, flat(x))
+						}
+					}
+					return true
+				})
+			}
+			if render == nil {
+				sb.WriteString(untranslatable("reduceRenderBody"))
+				sb.WriteString(untranslatable("reduceRowLoopBody"))
+				sb.WriteString(untranslatable("reduceHoistedDecls"))
+			} else {
+				bodyOf("reduceRenderBody", "reduceFunction, table path: the statements of the render callback, printed", render.Body)
+				var loop *ast.BlockStmt
+				for _, st := range render.Body.List {
+					if rs, ok := st.(*ast.RangeStmt); ok && loop == nil {
+						loop = rs.Body
+					}
+				}
+				bodyOf("reduceRowLoopBody", "reduceFunction, table path: the statements of the row loop `for i, group := range aggr.Groups(sorter)`", loop)
+				// (an empty list is the expected answer here, so it is printed as such)
+				fmt.Fprintf(&sb, "/-- reduceFunction, table path: declarations between NewTable and RunAggregationLoop (none: the row buffer lives inside the row loop) -/\ndef reduceHoistedDecls : List String := %s\n\n", leanStrList(hoisted))
+			}
+			funcBody("tableWriteRowBody", rend+"table.go", "TableWriter.WriteRow")
+			funcBody("tableWriteRowInnerBody", rend+"table.go", "TableWriter.writeRow")
+		}
+
 		// Spark.WriteTable: how the header measures the first and last column name
 		{
 			var rhs []string
